@@ -67,6 +67,8 @@ impl<E: Executor> Pool<E> {
                                 let mut connections = pool.connections.lock().await;
                                 let Some(connections) = connections.as_mut() else {
                                     // The transport was shut down
+                                    #[cfg(feature = "verif-hooks")]
+                                    crate::verif_hooks::point("maint.exit");
                                     return;
                                 };
 
@@ -107,6 +109,8 @@ impl<E: Executor> Pool<E> {
                                 let mut connections_guard = pool.connections.lock().await;
                                 let Some(connections) = connections_guard.as_mut() else {
                                     // The transport was shut down
+                                    #[cfg(feature = "verif-hooks")]
+                                    crate::verif_hooks::point("maint.exit");
                                     return;
                                 };
 
@@ -144,6 +148,8 @@ impl<E: Executor> Pool<E> {
                             tracing::warn!(
                                 "breaking out of task - no more references to Pool are available"
                             );
+                            #[cfg(feature = "verif-hooks")]
+                            crate::verif_hooks::point("maint.exit");
                             break;
                         }
                     }
